@@ -103,6 +103,17 @@ def view(ds):
     return v
 
 
+def safe_view(ds):
+    """view() that never raises: a dataset whose attributes cannot even be read is reported, not crashed on"""
+    if ds is None:
+        return None
+    try:
+        return view(ds)
+    except Exception as e:  # noqa
+        return {"cls": type(ds).__name__, "shape": list(getattr(getattr(ds, "_array", None), "shape", [])), "kind": "unreadable",
+                "re": None, "im": None, "origin": [], "sampling": [], "units": [], "unreadable": f"{type(e).__name__}: {e}"[:120]}
+
+
 def err_name(e):
     for n, c in (("ZeroDivisionError", ZeroDivisionError), ("TypeError", TypeError), ("IndexError", IndexError),
                  ("ValueError", ValueError), ("KeyError", KeyError), ("AttributeError", AttributeError)):
@@ -580,6 +591,8 @@ def check_getitem(ctx, src_arr, src_cal, ret, op, case):
                 ctx.pred_fail("oracle-self-check", "harness axis-order oracle disagrees with NumPy", case, observed=probe, required=[e[0] for e in exp])
                 return
     o, s, u = src_cal
+    if not (len(o) == len(s) == len(u) == src_arr.ndim):
+        return          # the source itself is incoherent (already reported by check_coherent): no calibration to carry over
     req_o = [o[a] for a, _ in exp]
     req_s = [fr(float(s[a]) * st) for a, st in exp]      # the float product, as the statement is about float calibration
     req_u = [u[a] for a, _ in exp]
@@ -659,7 +672,7 @@ def run_history(ctx, drv, new_req, ops_or_gen, stream="history", max_ops=12):
     except Exception as e:  # noqa
         cur = None
         res0 = {"err": err_name(e)}
-    records.append({"res": res0, "recv": view(cur) if cur is not None else None, "ret": None, "flags": dict(flags)})
+    records.append({"res": res0, "recv": safe_view(cur), "ret": None, "flags": dict(flags)})
     ctx.dist["new:" + new_req["cls"] + ":" + (res0.get("err") or "ok")] += 1
     if cur is not None:
         ctx.dist[f"ndim:{cur.ndim}"] += 1
@@ -703,7 +716,7 @@ def run_history(ctx, drv, new_req, ops_or_gen, stream="history", max_ops=12):
                 flags["data_inexact"] = False
         tgt = ret if ret is not None else cur
         flags["f32"] = tgt.array.dtype.itemsize // (2 if tgt.array.dtype.kind == "c" else 1) < 8 and tgt.array.dtype.kind in "fc"
-        records.append({"res": res, "recv": view(cur), "ret": view(ret) if ret is not None else None, "flags": dict(flags)})
+        records.append({"res": res, "recv": safe_view(cur), "ret": safe_view(ret), "flags": dict(flags)})
         reqs.append({k: v for k, v in op.items() if k not in ("dtype", "bare")})
         ctx.count()
         ctx.dist[f"op:{kind}" + (":inplace" if ip else "")] += 1
